@@ -157,14 +157,16 @@ PrefixOpts == << Opt("prefix", "g", Decl("string", <<>>, NoBound, NoBound), RStr
                  Opt("localstatedir", "g", Decl("string", <<>>, NoBound, NoBound), RStr("/var/local"), TRUE, FALSE, "no", TRUE),
                  Opt("sharedstatedir", "g", Decl("string", <<>>, NoBound, NoBound), RStr("/var/local/lib"), TRUE, FALSE, "no", TRUE) >>
 PrefixVals == <<"/usr", "/opt/verif", "/usr/local">>
-PrefixAt(l, rot) == PrefixVals[((((CASE l = 1 -> 0 [] l = 3 -> 1 [] OTHER -> 2)) + rot) % 3) + 1]
-PrefixCase(S, rot, se, le) ==
-    Case("prefix/r" \o ToString(rot) \o "/" \o ToString(S) \o "/s" \o ToString(se) \o "l" \o ToString(le), "prefix", FALSE, PrefixOpts,
-         [l \in 1..8 |-> (IF l \in S THEN <<Asg("prefix", "h", RStr(PrefixAt(l, rot)))>> ELSE <<>>)
+\* SL: the sources that spell their prefix with a trailing slash ("/usr/" is the prefix /usr)
+PrefixAt(l, rot, SL) == PrefixVals[((((CASE l = 1 -> 0 [] l = 3 -> 1 [] OTHER -> 2)) + rot) % 3) + 1] \o (IF l \in SL THEN "/" ELSE "")
+PrefixCase(S, rot, se, le, SL) ==
+    Case("prefix/r" \o ToString(rot) \o "/" \o ToString(S) \o "/s" \o ToString(se) \o "l" \o ToString(le) \o "/slash" \o ToString(SL), "prefix", FALSE, PrefixOpts,
+         [l \in 1..8 |-> (IF l \in S THEN <<Asg("prefix", "h", RStr(PrefixAt(l, rot, SL)))>> ELSE <<>>)
                          \o (IF l = se THEN <<Asg("sysconfdir", "h", RStr("myetc"))>> ELSE <<>>)
                          \o (IF l = le THEN <<Asg("localstatedir", "h", RStr("myvar")), Asg("sharedstatedir", "h", RStr("mycom"))>> ELSE <<>>)],
          << Q("prefix", "t", "h"), Q("sysconfdir", "t", "h"), Q("localstatedir", "t", "h"), Q("sharedstatedir", "t", "h") >>)
-PrefixCases(u) == { PrefixCase(S, rot, se, le) : S \in SUBSET {1, 3, 4}, rot \in 0..2, se \in {0, 1, 3, 4}, le \in {0, 4} }
+PrefixCases(u) == UNION { { PrefixCase(S, rot, se, le, SL) : rot \in 0..2, se \in {0, 1, 3, 4}, le \in {0, 4}, SL \in SUBSET S }
+                          : S \in SUBSET {1, 3, 4} }
 
 \* ---- per-machine options ----------------------------------------------------------------------
 PcpOpts == << Opt("pkg_config_path", "g", Decl("array", <<>>, NoBound, NoBound), RList(<<>>), TRUE, FALSE, "no", TRUE) >>
